@@ -26,6 +26,11 @@ type setupInfo struct {
 	Hostile   bool     `json:"hostile"`    // at least one discarded sibling / ancestor overrides a guest path of the instantiated config
 	ExtraFd   int32    `json:"extra_fd"`   // second pre-open (fd 4) or -1
 	ExtraRW   bool     `json:"extra_rw"`   // the second pre-open is legitimately writable (mountRORW)
+	// configs instantiated with a throwaway guest (then closed) during the setup
+	Used               int  `json:"used"`                 // total throwaway instantiations
+	AncestorUsedBefore bool `json:"ancestor_used_before"` // an ancestor was used BEFORE the config under test was derived from it
+	UsedBetween        bool `json:"used_between"`         // an ancestor / sibling / the config itself was used after the derivation, before the instantiation under test
+	ModuleConfigReused bool `json:"module_config_reused"` // the ModuleConfig under test was derived from one that had been instantiated
 }
 
 var siblingMapFS = fstest.MapFS{"sibling.txt": &fstest.MapFile{Data: []byte("from a sibling config\n"), Mode: 0o644}}
@@ -39,7 +44,7 @@ func spellings(p string) []string {
 	return []string{"/" + b, b, "/" + b + "/", "./" + b, "//" + b, b + "/"}
 }
 
-func (w *world) buildConfig(mount string, seed uint64) (wazero.ModuleConfig, *setupInfo) {
+func (w *world) buildConfig(mount, engine string, seed uint64) (wazero.ModuleConfig, *setupInfo) {
 	r := core.NewRng(int64(seed), 1717)
 	mnt := filepath.Join(w.root, mntDir)
 	outside := filepath.Join(w.root, "outside")
@@ -49,6 +54,21 @@ func (w *world) buildConfig(mount string, seed uint64) (wazero.ModuleConfig, *se
 	si.GuestPath = P
 	spell := func(p string) string { s := spellings(p); return s[r.Intn(len(s))] }
 
+	// use: instantiate a throwaway guest with the config and close it (the
+	// guest issues no call)
+	useMC := func(mc wazero.ModuleConfig, name string) {
+		rt, cm := w.guest(engine)
+		if mod, err := rt.InstantiateModule(w.ctx, cm, mc); err == nil {
+			mod.Close(w.ctx)
+			step("use(%s)   // instantiate a throwaway guest, close it", name)
+		} else {
+			step("use(%s) failed: %v", name, err)
+		}
+		si.Used++
+	}
+	use := func(cfg wazero.FSConfig, name string) {
+		useMC(wazero.NewModuleConfig().WithName("").WithFSConfig(cfg), "NewModuleConfig().WithFSConfig("+name+")")
+	}
 	// the mount under test on top of cfg
 	mountOn := func(cfg wazero.FSConfig, name, p string) wazero.FSConfig {
 		switch mount {
@@ -71,32 +91,37 @@ func (w *world) buildConfig(mount string, seed uint64) (wazero.ModuleConfig, *se
 	// one hostile derivation from cfg, overriding guest path p; the result is discarded
 	hostile := func(cfg wazero.FSConfig, name, p string, dirOfP string) {
 		sp := spell(p)
+		var sib wazero.FSConfig
 		switch k := r.Intn(10); {
 		case k < 4:
-			step("_ = %s.WithDirMount(%s, %q)", name, filepath.Base(dirOfP), sp)
-			_ = cfg.WithDirMount(dirOfP, sp)
+			step("sib = %s.WithDirMount(%s, %q)", name, filepath.Base(dirOfP), sp)
+			sib = cfg.WithDirMount(dirOfP, sp)
 		case k == 4:
 			other := outside
 			if dirOfP == outside {
 				other = mnt
 			}
-			step("_ = %s.WithDirMount(%s, %q)", name, filepath.Base(other), sp)
-			_ = cfg.WithDirMount(other, sp)
+			step("sib = %s.WithDirMount(%s, %q)", name, filepath.Base(other), sp)
+			sib = cfg.WithDirMount(other, sp)
 		case k == 5:
-			step("_ = %s.WithFSMount(siblingMapFS, %q)", name, sp)
-			_ = cfg.WithFSMount(siblingMapFS, sp)
+			step("sib = %s.WithFSMount(siblingMapFS, %q)", name, sp)
+			sib = cfg.WithFSMount(siblingMapFS, sp)
 		case k == 6:
-			step("_ = %s.WithReadOnlyDirMount(outside, %q)", name, sp)
-			_ = cfg.WithReadOnlyDirMount(outside, sp)
+			step("sib = %s.WithReadOnlyDirMount(outside, %q)", name, sp)
+			sib = cfg.WithReadOnlyDirMount(outside, sp)
 		case k == 7:
-			step("_ = %s.WithSysFSMount(DirFS(%s), %q)", name, filepath.Base(dirOfP), sp)
-			_ = cfg.(expsysfs.FSConfig).WithSysFSMount(expsysfs.DirFS(dirOfP), sp)
+			step("sib = %s.WithSysFSMount(DirFS(%s), %q)", name, filepath.Base(dirOfP), sp)
+			sib = cfg.(expsysfs.FSConfig).WithSysFSMount(expsysfs.DirFS(dirOfP), sp)
 		case k == 8:
-			step("_ = %s.WithDirMount(mnt, \"/elsewhere\").WithDirMount(%s, %q)", name, filepath.Base(dirOfP), sp)
-			_ = cfg.WithDirMount(mnt, "/elsewhere").WithDirMount(dirOfP, sp)
+			step("sib = %s.WithDirMount(mnt, \"/elsewhere\").WithDirMount(%s, %q)", name, filepath.Base(dirOfP), sp)
+			sib = cfg.WithDirMount(mnt, "/elsewhere").WithDirMount(dirOfP, sp)
 		default:
-			step("_ = %s.WithFSMount(os.DirFS(outside), %q)", name, sp)
-			_ = cfg.WithFSMount(os.DirFS(outside), sp)
+			step("sib = %s.WithFSMount(os.DirFS(outside), %q)", name, sp)
+			sib = cfg.WithFSMount(os.DirFS(outside), sp)
+		}
+		if r.Chance(1, 3) {
+			use(sib, "sib")
+			si.UsedBetween = true
 		}
 		si.Hostile = true
 	}
@@ -112,31 +137,62 @@ func (w *world) buildConfig(mount string, seed uint64) (wazero.ModuleConfig, *se
 		cfg = mountOn(wazero.NewFSConfig(), "NewFSConfig()", P)
 	case shape <= 3:
 		si.Shape = "siblings"
-		cfg = mountOn(wazero.NewFSConfig(), "NewFSConfig()", P)
+		if r.Chance(1, 3) {
+			// a chain whose first link (writable, same guest path) is used before
+			// the mount under test overrides it
+			step("pre := NewFSConfig().WithDirMount(mnt, %q)", P)
+			pre := wazero.NewFSConfig().WithDirMount(mnt, P)
+			use(pre, "pre")
+			si.AncestorUsedBefore, si.Hostile = true, true
+			cfg = mountOn(pre, "pre", spell(P))
+		} else {
+			cfg = mountOn(wazero.NewFSConfig(), "NewFSConfig()", P)
+		}
 	case shape <= 5:
 		// the read-only config is derived FROM a writable one mounted at the same path
 		si.Shape = "reverse"
 		step("rw := NewFSConfig().WithDirMount(mnt, %q)", P)
 		rw := wazero.NewFSConfig().WithDirMount(mnt, P)
+		if r.Chance(2, 3) {
+			use(rw, "rw")
+			si.AncestorUsedBefore = true
+		}
 		cfg = mountOn(rw, "rw", spell(P))
 		si.Hostile = true
-		for i, n := 0, r.Intn(3); i < n; i++ { // the ancestor keeps being used
+		if r.Chance(1, 3) {
+			use(rw, "rw")
+			si.UsedBetween = true
+		}
+		for i, n := 0, r.Intn(3); i < n; i++ { // the ancestor keeps being derived from
 			hostile(rw, "rw", P, mnt)
 		}
 	default:
 		// two read-only guest paths; siblings override only one of them
 		si.Shape = "nested"
 		cfg = mountOn(wazero.NewFSConfig(), "NewFSConfig()", P)
+		if r.Chance(1, 2) {
+			use(cfg, "cfg")
+			si.AncestorUsedBefore = true
+			si.Hostile = true
+		}
 		step("cfg = cfg.WithReadOnlyDirMount(outside, \"/second\")")
 		cfg = cfg.WithReadOnlyDirMount(outside, "/second")
 		si.ExtraFd = 4
 	}
 	if mount == mountRORW {
+		if si.Shape != "plain" && r.Chance(1, 3) {
+			use(cfg, "cfg")
+			si.AncestorUsedBefore, si.Hostile = true, true
+		}
 		step("cfg = cfg.WithDirMount(rwdir, \"/rw\")")
 		cfg = cfg.WithDirMount(w.rwdir, "/rw")
 		si.ExtraFd, si.ExtraRW = 4, true
 	}
 	step("ro := cfg   // the value under test")
+	if si.Shape != "plain" && r.Chance(1, 4) {
+		use(cfg, "ro") // the value under test itself was used before its siblings are derived
+		si.UsedBetween, si.Hostile = true, true
+	}
 	if si.Shape != "plain" {
 		for i, n := 0, 1+r.Intn(3); i < n; i++ {
 			if si.Shape == "nested" && r.Bool() {
@@ -146,16 +202,31 @@ func (w *world) buildConfig(mount string, seed uint64) (wazero.ModuleConfig, *se
 			}
 		}
 	}
-	step("mc := NewModuleConfig().WithName(\"\").WithFSConfig(ro)")
-	mc := wazero.NewModuleConfig().WithName("").WithFSConfig(cfg)
+	var mc wazero.ModuleConfig
+	if si.Shape != "plain" && r.Chance(1, 3) {
+		// the ModuleConfig under test is derived from one that was already instantiated
+		step("mc0 := NewModuleConfig().WithName(\"\").WithFSConfig(NewFSConfig().WithDirMount(mnt, %q))", P)
+		mc0 := wazero.NewModuleConfig().WithName("").WithFSConfig(wazero.NewFSConfig().WithDirMount(mnt, P))
+		useMC(mc0, "mc0")
+		step("mc := mc0.WithFSConfig(ro)")
+		mc = mc0.WithFSConfig(cfg)
+		si.ModuleConfigReused, si.Hostile = true, true
+	} else {
+		step("mc := NewModuleConfig().WithName(\"\").WithFSConfig(ro)")
+		mc = wazero.NewModuleConfig().WithName("").WithFSConfig(cfg)
+	}
 	if si.Shape != "plain" && r.Bool() {
 		// derivations on the ModuleConfig that already carries the FSConfig
 		for i, n := 0, 1+r.Intn(2); i < n; i++ {
 			switch r.Intn(4) {
 			case 0:
 				sp := spell(P)
-				step("_ = mc.WithFSConfig(ro.WithDirMount(mnt, %q))", sp)
-				_ = mc.WithFSConfig(cfg.WithDirMount(mnt, sp))
+				step("mc2 := mc.WithFSConfig(ro.WithDirMount(mnt, %q))", sp)
+				mc2 := mc.WithFSConfig(cfg.WithDirMount(mnt, sp))
+				if r.Bool() {
+					useMC(mc2, "mc2")
+					si.UsedBetween = true
+				}
 			case 1:
 				step("_ = mc.WithFSConfig(NewFSConfig().WithDirMount(mnt, %q))", P)
 				_ = mc.WithFSConfig(wazero.NewFSConfig().WithDirMount(mnt, P))
